@@ -246,7 +246,15 @@ def run(ctx):
     ok = len(wd) == 2 and all(B.entails(q.gformula(fx, a, inline=False), B.from_expr("word_clr | word_inc")) for a in wd)
     ctx.ob("A3", WB, "Cache", "word register moves only via word_clr/word_inc", ok, "" if ok else f"{[(a.v, a.gtext()) for a in wd]}")
     sadr = fx.find(domain="comb", target="slave.adr")
-    ok = len(sadr) == 2 and all("tag_do.tag" in a.v and "adr_line" in a.v for a in sadr)
+    import re as _re
+
+    def _pos(v, name):
+        m_ = _re.search(r"\b" + _re.escape(name) + r"\b", v)
+        return m_.start() if m_ else -1
+    # Cat(word?, adr_line, tag_do.tag), least significant first; the word index is present when the slave bus is narrower
+    ok = bool(sadr) and all(a.v.startswith("Cat(") and 0 <= _pos(a.v, "adr_line") < _pos(a.v, "tag_do.tag") and
+                            (_pos(a.v, "word") < 0 or _pos(a.v, "word") < _pos(a.v, "adr_line")) for a in sadr) and \
+        any(_pos(a.v, "word") >= 0 for a in sadr)
     ctx.ob("A3", WB, "Cache", "slave address = {word, line, stored tag}", ok, "" if ok else f"{[a.v for a in sadr]}")
 
     # ================================================================ A4 Remapper
